@@ -14,11 +14,14 @@ import (
 	"encoding/json"
 	"fmt"
 	"hash/crc32"
+	"net"
+	"net/http"
 	"os"
 	"path/filepath"
 	"sort"
 	"strconv"
 	"strings"
+	"sync"
 )
 
 // Hdr is one record header as sent by the producer.
@@ -378,4 +381,103 @@ func trunc(b []byte) []byte {
 // Brief renders a record for witnesses.
 func Brief(r Rec) map[string]any {
 	return map[string]any{"offset": r.Offset, "first_timestamp": r.FirstTS, "timestamp_delta": r.TsDelta, "key_null": r.KeyNull, "key": string(trunc(r.Key)), "value_null": r.ValueNull, "value": string(trunc(r.Value)), "headers": len(r.Headers)}
+}
+
+// ---------------------------------------------------------------------------
+// Loopback S3 (GetObject only, path style) so that the processors' real
+// decoder.New / Decode run with their real download path on a concrete
+// *s3.Client. Stdlib only. Every request is counted: the oracle may only blame
+// the decoder for a failed Decode when the object was served completely.
+
+type S3 struct {
+	mu      sync.Mutex
+	objects map[string][]byte // "bucket/key"
+	served  map[string]int    // complete 200 responses per "bucket/key"
+	bad     []string
+	ln      net.Listener
+	srv     *http.Server
+}
+
+// StartS3 starts the loopback server on 127.0.0.1.
+func StartS3() (*S3, error) {
+	ln, err := net.Listen("tcp", "127.0.0.1:0")
+	if err != nil {
+		return nil, err
+	}
+	s := &S3{objects: map[string][]byte{}, served: map[string]int{}, ln: ln}
+	s.srv = &http.Server{Handler: s}
+	go func() { _ = s.srv.Serve(ln) }()
+	return s, nil
+}
+
+func (s *S3) Endpoint() string { return "http://" + s.ln.Addr().String() }
+func (s *S3) Close()           { _ = s.srv.Close() }
+
+// Put stores a private copy of data.
+func (s *S3) Put(bucket, key string, data []byte) {
+	s.mu.Lock()
+	s.objects[bucket+"/"+key] = append([]byte(nil), data...)
+	s.mu.Unlock()
+}
+
+// Served says how many times the object was written out completely with status 200.
+func (s *S3) Served(bucket, key string) int {
+	s.mu.Lock()
+	defer s.mu.Unlock()
+	return s.served[bucket+"/"+key]
+}
+
+// Bad lists requests the fake does not implement (a harness defect, never a violation).
+func (s *S3) Bad() []string {
+	s.mu.Lock()
+	defer s.mu.Unlock()
+	return append([]string(nil), s.bad...)
+}
+
+func (s *S3) ServeHTTP(w http.ResponseWriter, r *http.Request) {
+	p := strings.TrimPrefix(r.URL.Path, "/")
+	s.mu.Lock()
+	data, ok := s.objects[p]
+	s.mu.Unlock()
+	if r.Method != http.MethodGet || r.Header.Get("Range") != "" || r.URL.RawQuery != "" && r.URL.RawQuery != "x-id=GetObject" {
+		s.mu.Lock()
+		if len(s.bad) < 20 {
+			s.bad = append(s.bad, fmt.Sprintf("%s %s range=%q", r.Method, r.URL.String(), r.Header.Get("Range")))
+		}
+		s.mu.Unlock()
+		w.Header().Set("Content-Type", "application/xml")
+		w.WriteHeader(400)
+		fmt.Fprint(w, `<?xml version="1.0" encoding="UTF-8"?><Error><Code>InvalidRequest</Code><Message>unsupported</Message><RequestId>c07</RequestId><HostId>c07</HostId></Error>`)
+		return
+	}
+	if !ok {
+		s.mu.Lock()
+		if len(s.bad) < 20 {
+			s.bad = append(s.bad, "GET of unknown object "+p)
+		}
+		s.mu.Unlock()
+		w.Header().Set("Content-Type", "application/xml")
+		w.WriteHeader(404)
+		fmt.Fprint(w, `<?xml version="1.0" encoding="UTF-8"?><Error><Code>NoSuchKey</Code><Message>The specified key does not exist.</Message><RequestId>c07</RequestId><HostId>c07</HostId></Error>`)
+		return
+	}
+	w.Header().Set("ETag", `"c07"`)
+	w.Header().Set("Last-Modified", "Thu, 02 Jan 2020 03:04:05 GMT")
+	w.Header().Set("Accept-Ranges", "bytes")
+	w.Header().Set("Content-Type", "application/octet-stream")
+	w.Header().Set("Content-Length", strconv.Itoa(len(data)))
+	w.WriteHeader(200)
+	n, err := w.Write(data)
+	if err == nil && n == len(data) {
+		s.mu.Lock()
+		s.served[p]++
+		s.mu.Unlock()
+	}
+}
+
+// AWSEnv is the process environment under which the AWS SDK of the processors
+// talks to the loopback S3 without looking for credentials/metadata elsewhere.
+func AWSEnv() map[string]string {
+	return map[string]string{"AWS_ACCESS_KEY_ID": "c07", "AWS_SECRET_ACCESS_KEY": "c07secret", "AWS_REGION": "us-east-1", "AWS_EC2_METADATA_DISABLED": "true",
+		"AWS_CONFIG_FILE": "/nonexistent/c07", "AWS_SHARED_CREDENTIALS_FILE": "/nonexistent/c07", "AWS_REQUEST_CHECKSUM_CALCULATION": "when_required", "AWS_RESPONSE_CHECKSUM_VALIDATION": "when_required"}
 }
